@@ -2,72 +2,145 @@
   C10 — timer schedule laws. Property theorems only (model: Kopf/Model/C10_Timer.lean).
 
   All theorems hold for EVERY configuration (interval / sharp / idle / initial_delay present or absent,
-  backoff, errors mode, retries), every run record (any duration: `ended - start` shorter, equal or
+  backoff, errors mode, retries), every iteration record (any duration: `ended - start` shorter, equal or
   longer than the interval; any patch round trip `patched - ended ≥ 0`), every result script and every
   timing of object changes (`view : Int → Int` is an arbitrary function: what the loop reads of
-  `memory.idle_reset_time` at each instant).
+  `memory.idle_reset_time` at each instant; in the idle section it is derived from an arbitrary event
+  history). `Sched cfg view spawn its` = `its` is a prefix of the iteration sequence of one timer task;
+  `stateAt cfg its n` = the in-memory handler state with which iteration `n` is entered. Whether an
+  iteration invokes the function is determined by that state (`Iter.ok`), not assumed.
 
   What "one interval after the previous run ended" means in the code: every post-run sleep is entered
-  after the post-run `patch_and_check` returned (`Run.patched`), NOT when the function returned
-  (`Run.ended`). Non-sharp: next start = `patched + interval` (later only if the idle gate holds it).
+  after the post-run `patch_and_check` returned (`Iter.patched`), NOT when the function returned
+  (`Iter.ended`). Non-sharp: next start = `patched + interval` (later only if the idle gate holds it).
   Sharp: the grid is counted from the run's `start`, and the next start is the first grid point
   STRICTLY after `patched` (a run whose patch ends exactly on a grid point skips that point).
   After a non-final failure the delay is counted from `ended` (`delayed = now + delay` is stamped by
   `with_outcomes` before the patch), so the next start is `max patched (ended + delay)`.
-  A run that failed for good is the timer's last run (`permanent_is_last`, `failed_is_last`): the state
-  is kept, nothing is awakened any more; the loop itself keeps sleeping (or breaks, for a one-shot).
-  The stopper is not modelled: it truncates a run sequence (every loop is guarded by it, `stopperGuards`).
+  The stopper is not modelled: it truncates a sequence (every loop is guarded by it, `stopperGuards`).
 -/
 import Kopf.Lemmas.C10_Timer
 namespace Kopf.C10
 
 /-! ### no overlap -/
 
-/-- One step: the next run starts no earlier than the end of the previous run's post-run patch,
+/-- One step: the next iteration starts no earlier than the end of the previous one's post-run patch,
     hence not before the previous run's function returned. No hypothesis on the configuration. -/
-theorem no_overlap_step (cfg : Cfg) (view : View) (r : Run) (t' : Int) (hwf : r.WF)
-    (h : Next cfg view r t') : r.ended ≤ t' ∧ r.patched ≤ t' := by
+theorem no_overlap_step (cfg : Cfg) (view : View) (h' : HState) (it : Iter) (t' : Int)
+    (hwf : it.ended ≤ it.patched) (h : Next cfg view h' it t') : it.ended ≤ t' ∧ it.patched ≤ t' := by
   have := h.ge_patched
-  have := hwf.2
   omega
 
-/-- A timer never overlaps with itself: in every run sequence of a timer task, run `n+1` starts at or
-    after the end of run `n` (function end and post-run patch end). By induction over the sequence. -/
-theorem no_overlap (cfg : Cfg) (view : View) (spawn : Int) (rs : List Run) (h : Sched cfg view spawn rs)
-    (n : Nat) (a b : Run) (ha : rs[n]? = some a) (hb : rs[n + 1]? = some b) :
+/-- A timer never overlaps with itself: in every sequence of a timer task, iteration `n+1` starts at or
+    after the end of iteration `n` (function end and post-run patch end). -/
+theorem no_overlap (cfg : Cfg) (view : View) (spawn : Int) (its : List Iter) (h : Sched cfg view spawn its)
+    (n : Nat) (a b : Iter) (ha : its[n]? = some a) (hb : its[n + 1]? = some b) :
     a.start ≤ a.ended ∧ a.ended ≤ b.start ∧ a.patched ≤ b.start := by
-  cases rs with
-  | nil => simp at ha
-  | cons r rs =>
-    obtain ⟨_, hwf, _, hc⟩ := h
-    exact Chain.consecutive (cfg := cfg) (view := view)
-      (P := fun a b => a.start ≤ a.ended ∧ a.ended ≤ b.start ∧ a.patched ≤ b.start)
-      (fun r r' hw _ hn _ => ⟨hw.1, (no_overlap_step cfg view r r'.start hw hn).1,
-        (no_overlap_step cfg view r r'.start hw hn).2⟩)
-      rs r hwf hc n a b ha hb
+  have hok := Sched.ok_at h n a ha
+  have hn := (Sched.step_at h ha hb).1
+  have := hn.ge_patched
+  have := hok.1
+  have := hok.2.1
+  omega
+
+/-! ### which iterations are runs: derived from the carried state -/
+
+/-- As long as the timer has not failed for good, EVERY iteration invokes the function: the carried
+    state is fresh (after a success) or a retrying one whose `delayed` instant has passed when the loop
+    comes round (the error-delay sleep and the idle gate only end later). Invariant over the sequence. -/
+theorem invoked_unless_failed (cfg : Cfg) (view : View) (spawn : Int) (its : List Iter) (h : Sched cfg view spawn its)
+    (n : Nat) (a : Iter) (ha : its[n]? = some a) (hnf : (stateAt cfg its n).failure = false) :
+    a.res.isSome = true := by
+  obtain ⟨i1, i2⟩ := Sched.ready h n a ha
+  have hok := Sched.ok_at h n a ha
+  rw [hok.2.2.1]
+  generalize stateAt cfg its n = hs at i1 i2 hnf
+  unfold HState.atTop
+  by_cases hfin : hs.finished = true
+  · have hs' : hs.success = true := by
+      simp [HState.finished, hnf] at hfin; exact hfin
+    simp [hs', hnf, HState.awakened, HState.sleeping, HState.finished, HState.fresh]
+  · have hfin' : hs.finished = false := by cases hf : hs.finished <;> simp_all
+    simp only [hfin', Bool.false_and, Bool.false_eq_true, if_false]
+    cases hd : hs.delayed with
+    | none => simp [HState.awakened, HState.sleeping, hfin', hd]
+    | some d =>
+      have := i2 d hd
+      have hnot : ¬ (d > a.start) := by omega
+      simp [HState.awakened, HState.sleeping, hfin', hd, hnot]
+
+/-- docs/timers.rst: "For PermanentError, the timer stops forever and is not retried." Once an iteration
+    leaves the state failed (PermanentError, an arbitrary error under errors=PERMANENT, retries
+    exhausted), the state is kept at the top of the loop, nothing is awakened any more, and NO later
+    iteration of the sequence invokes the function — derived from the state machine (`atTop` keeps a
+    failed state, `awakened` is false for a finished one, `with_outcomes({})` changes nothing), for every
+    configuration and every timing. -/
+theorem failed_is_last (cfg : Cfg) (view : View) (spawn : Int) (its : List Iter) (h : Sched cfg view spawn its)
+    (n : Nat) (hf : (stateAt cfg its n).failure = true) :
+    ∀ (m : Nat) (b : Iter), n ≤ m → its[m]? = some b → b.res = none ∧ (stateAt cfg its (m + 1)) = stateAt cfg its n := by
+  intro m
+  induction m with
+  | zero =>
+    intro b hnm hb
+    have : n = 0 := by omega
+    subst this
+    have hok := Sched.ok_at h 0 b hb
+    have hst := step_of_failure (cfg := cfg) hf hok
+    refine ⟨?_, by rw [stateAt_succ hb, hst]⟩
+    have := hok.2.2.1; rw [not_awakened_of_failure hf] at this
+    cases hr : b.res <;> simp [hr] at this ⊢
+  | succ m ih =>
+    intro b hnm hb
+    have hstate : stateAt cfg its (m + 1) = stateAt cfg its n := by
+      rcases Nat.lt_or_ge n (m + 1) with hlt | hge
+      · have hm : m < its.length := by
+          rcases Nat.lt_or_ge (m + 1) its.length with h' | h'
+          · omega
+          · rw [List.getElem?_eq_none h'] at hb; cases hb
+        exact (ih its[m] (by omega) (List.getElem?_eq_getElem hm)).2
+      · have : n = m + 1 := by omega
+        rw [this]
+    have hf' : (stateAt cfg its (m + 1)).failure = true := by rw [hstate]; exact hf
+    have hok := Sched.ok_at h (m + 1) b hb
+    have hst := step_of_failure (cfg := cfg) hf' hok
+    refine ⟨?_, by rw [stateAt_succ hb, hst, hstate]⟩
+    have := hok.2.2.1; rw [not_awakened_of_failure hf'] at this
+    cases hr : b.res <;> simp [hr] at this ⊢
+
+/-- a run that fails for good leaves the state failed (the link from results to `failed_is_last`) -/
+theorem failed_run_marks_state (cfg : Cfg) (its : List Iter) (n : Nat) (a : Iter) (r : Result) (ha : its[n]? = some a)
+    (hr : a.res = some r) (hc : classify cfg (attemptOf (stateAt cfg its n)) r = .failed) :
+    (stateAt cfg its (n + 1)).failure = true := by
+  rw [stateAt_succ ha]
+  unfold attemptOf at hc
+  simp [step, hr, hc, HState.withOutcome]
 
 /-! ### after a successful run: the interval -/
 
-/-- Non-sharp timers: the loop is back at its top exactly `interval` after the post-run patch ended,
-    and the next run starts there unless the idle gate postpones it:
-    * never earlier than `patched + interval` (so never earlier than `ended + interval`);
-    * exactly then when there is no `idle`, or when the idle time has already passed there;
-    * if postponed, it starts exactly `idle` after a reset read while waiting;
-    * with no change after the wake-up (`view` stays `v`): exactly `max (patched + interval) (v + idle)`. -/
-theorem interval_law (cfg : Cfg) (view : View) (r : Run) (t' i : Int)
-    (hi : cfg.interval = some i) (hpos : 0 < i) (hs : cfg.sharp = false) (hd : r.out cfg = .done)
-    (hwf : r.WF) (h : Next cfg view r t') :
-    r.ended + i ≤ t' ∧ r.patched + i ≤ t' ∧
-    (cfg.idle = none → t' = r.patched + i) ∧
+/-- the state a successful run (or an ignored error) leaves is finished and not failed -/
+theorem success_marks_state (cfg : Cfg) (its : List Iter) (n : Nat) (a : Iter) (r : Result) (ha : its[n]? = some a)
+    (hr : a.res = some r) (hc : classify cfg (attemptOf (stateAt cfg its n)) r = .done) :
+    (stateAt cfg its (n + 1)).finished = true ∧ (stateAt cfg its (n + 1)).failure = false := by
+  rw [stateAt_succ ha]
+  unfold attemptOf at hc
+  simp [step, hr, hc, HState.withOutcome, HState.finished]
+
+/-- One step, non-sharp timers: after an iteration that left the state finished, the loop is back at
+    its top exactly `interval` after the post-run patch ended, and the next iteration starts there unless
+    the idle gate postpones it. -/
+theorem interval_law_step (cfg : Cfg) (view : View) (h' : HState) (it : Iter) (t' i : Int)
+    (hi : cfg.interval = some i) (hpos : 0 < i) (hs : cfg.sharp = false) (hd : h'.finished = true)
+    (hwf : it.ended ≤ it.patched) (h : Next cfg view h' it t') :
+    it.ended + i ≤ t' ∧ it.patched + i ≤ t' ∧
+    (cfg.idle = none → t' = it.patched + i) ∧
     (∀ idle, cfg.idle = some idle →
-        (idle ≤ (r.patched + i) - view (r.patched + i) → t' = r.patched + i) ∧
-        (t' = r.patched + i ∨ ∃ u, r.patched + i ≤ u ∧ u < t' ∧ t' = view u + idle) ∧
-        (∀ v, (∀ u, r.patched + i ≤ u → view u = v) → t' = max (r.patched + i) (v + idle))) := by
-  have hw : wake cfg r = .at (r.patched + i) := by
-    unfold wake; rw [hd]; simp only [hi, hs]; simp [sleepUntil_pos hpos]
-  unfold Next at h; replace h := h.2; rw [hw] at h; simp only at h
+        (idle ≤ (it.patched + i) - view (it.patched + i) → t' = it.patched + i) ∧
+        (t' = it.patched + i ∨ ∃ u, it.patched + i ≤ u ∧ u < t' ∧ t' = view u + idle) ∧
+        (∀ v, (∀ u, it.patched + i ≤ u → view u = v) → t' = max (it.patched + i) (v + idle))) := by
+  have hw : wake cfg h' it = .at (it.patched + i) := by
+    unfold wake; simp [hd, hi, hs, sleepUntil_pos hpos]
+  unfold Next at h; rw [hw] at h; simp only at h
   have hge := h.ge
-  have := hwf.2
   refine ⟨by omega, hge, fun hn => Gate.no_idle hn h, fun idle hidle => ⟨?_, Gate.form hidle h, fun v hq => Gate.quiet hidle hq h⟩⟩
   intro hok
   unfold Gate at h; rw [hidle] at h
@@ -75,66 +148,108 @@ theorem interval_law (cfg : Cfg) (view : View) (r : Run) (t' i : Int)
   | pass _ => rfl
   | wait hlt _ => omega
 
-/-- Sharp timers: the loop is back at its top on the interval grid counted from the run's START:
-    at `g = start + k·interval` with `k ≥ 1`, and `g` is the first grid point strictly after the end
-    of the post-run patch (`g - interval ≤ patched < g`) — whatever the duration of the run
-    (shorter, equal, longer than the interval: `k` counts the skipped grid points).
-    The next run starts at `g` unless the idle gate postpones it. -/
-theorem sharp_grid (cfg : Cfg) (view : View) (r : Run) (t' i : Int)
-    (hi : cfg.interval = some i) (hpos : 0 < i) (hs : cfg.sharp = true) (hd : r.out cfg = .done)
-    (hwf : r.WF) (h : Next cfg view r t') :
-    ∃ k : Nat, 1 ≤ k ∧ r.patched < r.start + k * i ∧ r.start + k * i - i ≤ r.patched ∧
-      Gate cfg view (r.start + k * i) t' ∧ r.start + k * i ≤ t' ∧
-      (cfg.idle = none → t' = r.start + k * i) := by
-  have hp : 0 ≤ r.patched - r.start := by have := hwf.1; have := hwf.2; omega
-  have hlt := Int.emod_lt_of_pos (r.patched - r.start) hpos
-  have hnn := Int.emod_nonneg (r.patched - r.start) (Int.ne_of_gt hpos)
+/-- After a successful run the next iteration IS a run (the function is invoked again), and it starts
+    one interval after the end of the previous run's post-run patch unless idling postpones it:
+    * never earlier than `patched + interval` (so never earlier than `ended + interval`);
+    * exactly then when there is no `idle`, or when the idle time has already passed there;
+    * if postponed, exactly `idle` after a reset read while waiting;
+    * with no change after the wake-up (`view` stays `v`): exactly `max (patched + interval) (v + idle)`. -/
+theorem interval_law (cfg : Cfg) (view : View) (spawn : Int) (its : List Iter) (h : Sched cfg view spawn its)
+    (n : Nat) (a b : Iter) (r : Result) (i : Int) (ha : its[n]? = some a) (hb : its[n + 1]? = some b)
+    (hr : a.res = some r) (hc : classify cfg (attemptOf (stateAt cfg its n)) r = .done)
+    (hi : cfg.interval = some i) (hpos : 0 < i) (hs : cfg.sharp = false) :
+    b.res.isSome = true ∧ a.ended + i ≤ b.start ∧ a.patched + i ≤ b.start ∧
+    (cfg.idle = none → b.start = a.patched + i) ∧
+    (∀ idle, cfg.idle = some idle →
+        (idle ≤ (a.patched + i) - view (a.patched + i) → b.start = a.patched + i) ∧
+        (b.start = a.patched + i ∨ ∃ u, a.patched + i ≤ u ∧ u < b.start ∧ b.start = view u + idle) ∧
+        (∀ v, (∀ u, a.patched + i ≤ u → view u = v) → b.start = max (a.patched + i) (v + idle))) := by
+  obtain ⟨hfin, hnf⟩ := success_marks_state cfg its n a r ha hr hc
+  have hok := Sched.ok_at h n a ha
+  exact ⟨invoked_unless_failed cfg view spawn its h (n + 1) b hb hnf,
+    interval_law_step cfg view _ a b.start i hi hpos hs hfin hok.2.1 (Sched.step_at h ha hb).1⟩
+
+/-- One step, sharp timers: the loop is back at its top on the interval grid counted from the
+    iteration's START: at `g = start + k·interval` with `k ≥ 1`, and `g` is the first grid point strictly
+    after the end of the post-run patch (`g - interval ≤ patched < g`) — whatever the duration of the run
+    (shorter, equal, longer than the interval: `k` counts the skipped grid points). -/
+theorem sharp_grid_step (cfg : Cfg) (view : View) (h' : HState) (it : Iter) (t' i : Int)
+    (hi : cfg.interval = some i) (hpos : 0 < i) (hs : cfg.sharp = true) (hd : h'.finished = true)
+    (hwf : it.start ≤ it.patched) (h : Next cfg view h' it t') :
+    ∃ k : Nat, 1 ≤ k ∧ it.patched < it.start + k * i ∧ it.start + k * i - i ≤ it.patched ∧
+      Gate cfg view (it.start + k * i) t' ∧ it.start + k * i ≤ t' ∧
+      (cfg.idle = none → t' = it.start + k * i) := by
+  have hp : 0 ≤ it.patched - it.start := by omega
+  have hlt := Int.emod_lt_of_pos (it.patched - it.start) hpos
+  have hnn := Int.emod_nonneg (it.patched - it.start) (Int.ne_of_gt hpos)
   have hq := Int.ediv_nonneg hp (Int.le_of_lt hpos)
-  have hdm := Int.emod_add_mul_ediv (r.patched - r.start) i
-  have hw : wake cfg r = .at (r.patched + (i - (r.patched - r.start) % i)) := by
-    unfold wake; rw [hd]; simp only [hi, hs]
-    have : 0 < i - (r.patched - r.start) % i := by omega
-    simp [sleepUntil_pos this]
-  unfold Next at h; replace h := h.2; rw [hw] at h; simp only at h
-  refine ⟨((r.patched - r.start) / i).toNat + 1, by omega, ?_⟩
-  have hk : (((r.patched - r.start) / i).toNat + 1 : Nat) * i = i * ((r.patched - r.start) / i) + i := by
+  have hdm := Int.emod_add_mul_ediv (it.patched - it.start) i
+  have hw : wake cfg h' it = .at (it.patched + (i - (it.patched - it.start) % i)) := by
+    have : 0 < i - (it.patched - it.start) % i := by omega
+    unfold wake; simp [hd, hi, hs, sleepUntil_pos this]
+  unfold Next at h; rw [hw] at h; simp only at h
+  refine ⟨((it.patched - it.start) / i).toNat + 1, by omega, ?_⟩
+  have hk : (((it.patched - it.start) / i).toNat + 1 : Nat) * i = i * ((it.patched - it.start) / i) + i := by
     rw [Int.natCast_add, Int.toNat_of_nonneg hq, Int.add_mul, Int.mul_comm]; omega
   rw [hk]
-  have hg : r.patched + (i - (r.patched - r.start) % i) = r.start + (i * ((r.patched - r.start) / i) + i) := by
+  have hg : it.patched + (i - (it.patched - it.start) % i) = it.start + (i * ((it.patched - it.start) / i) + i) := by
     omega
   rw [hg] at h
   exact ⟨by omega, by omega, h, h.ge, fun hn => Gate.no_idle hn h⟩
 
+/-- After a successful run of a sharp timer the next iteration is a run and starts on the interval grid
+    counted from the previous run's start — the first grid point strictly after the end of its post-run
+    patch — unless the idle gate postpones it (then it may leave the grid). -/
+theorem sharp_grid (cfg : Cfg) (view : View) (spawn : Int) (its : List Iter) (h : Sched cfg view spawn its)
+    (n : Nat) (a b : Iter) (r : Result) (i : Int) (ha : its[n]? = some a) (hb : its[n + 1]? = some b)
+    (hr : a.res = some r) (hc : classify cfg (attemptOf (stateAt cfg its n)) r = .done)
+    (hi : cfg.interval = some i) (hpos : 0 < i) (hs : cfg.sharp = true) :
+    b.res.isSome = true ∧
+    ∃ k : Nat, 1 ≤ k ∧ a.patched < a.start + k * i ∧ a.start + k * i - i ≤ a.patched ∧
+      Gate cfg view (a.start + k * i) b.start ∧ a.start + k * i ≤ b.start ∧
+      (cfg.idle = none → b.start = a.start + k * i) := by
+  obtain ⟨hfin, hnf⟩ := success_marks_state cfg its n a r ha hr hc
+  have hok := Sched.ok_at h n a ha
+  exact ⟨invoked_unless_failed cfg view spawn its h (n + 1) b hb hnf,
+    sharp_grid_step cfg view _ a b.start i hi hpos hs hfin (by have := hok.1; have := hok.2.1; omega) (Sched.step_at h ha hb).1⟩
+
 /-! ### after a failed run: the error's delay or the backoff -/
 
-/-- After a non-final failure with delay `d` (`TemporaryError(delay=d)`; an arbitrary exception under
-    `errors=TEMPORARY` has `d = backoff`, see `classify_arbitrary`), the interval is not used: the loop
-    is back at its top at `max patched (ended + d)` — the delay counts from the function's end, the
-    patch round trip is absorbed in it — and the next run starts there unless the idle gate postpones it. -/
-theorem error_delay_law (cfg : Cfg) (view : View) (r : Run) (t' d : Int)
-    (hd : r.out cfg = .retry (some d)) (h : Next cfg view r t') :
-    Gate cfg view (max r.patched (r.ended + d)) t' ∧ r.ended + d ≤ t' ∧ r.patched ≤ t' ∧
-    (cfg.idle = none → t' = max r.patched (r.ended + d)) := by
-  have hw : wake cfg r = .at (max r.patched (r.ended + d)) := by
-    unfold wake; rw [hd]; simp only; rw [sleep_stateDelay]
-  unfold Next at h; replace h := h.2; rw [hw] at h; simp only at h
+/-- One step: a retrying state with `delayed = D` brings the loop back to its top at `max patched D`. -/
+theorem error_delay_step (cfg : Cfg) (view : View) (h' : HState) (it : Iter) (t' D : Int)
+    (hf : h'.finished = false) (hd : h'.delayed = some D) (h : Next cfg view h' it t') :
+    Gate cfg view (max it.patched D) t' ∧ D ≤ t' ∧ it.patched ≤ t' ∧
+    (cfg.idle = none → t' = max it.patched D) := by
+  have hw : wake cfg h' it = .at (max it.patched D) := by
+    unfold wake; simp [hf, sleep_delay h' it.patched D hd]
+  unfold Next at h; rw [hw] at h; simp only at h
   have := h.ge
   exact ⟨h, by omega, by omega, fun hn => Gate.no_idle hn h⟩
 
-/-- which results are retried with which delay: `TemporaryError(delay)` with its own delay … -/
-theorem classify_temporary (cfg : Cfg) (attempt : Nat) (d : Option Int)
-    (h : lookaheadRetries cfg attempt = false) : classify cfg attempt (.temporary d) = .retry d := by
-  simp [classify, h]
-
-/-- … an arbitrary exception (default `errors` mode) with the handler's backoff. -/
-theorem classify_arbitrary (cfg : Cfg) (attempt : Nat) (he : cfg.errors = .temporary)
-    (h : lookaheadRetries cfg attempt = false) : classify cfg attempt .arbitrary = .retry (some cfg.backoff) := by
-  simp [classify, he, h]
+/-- After a run that failed non-finally with delay `d` — `TemporaryError(delay=d)`, or an arbitrary
+    exception under the default `errors` mode with `d = backoff` (that is what `classify` yields when the
+    retries are not exhausted) — the interval is not used: the next iteration is a run (a retry) and
+    starts at `max patched (ended + d)` — the delay counts from the function's end, the patch round trip
+    is absorbed in it — unless the idle gate postpones it. -/
+theorem error_delay_law (cfg : Cfg) (view : View) (spawn : Int) (its : List Iter) (h : Sched cfg view spawn its)
+    (n : Nat) (a b : Iter) (r : Result) (d : Int) (ha : its[n]? = some a) (hb : its[n + 1]? = some b)
+    (hr : a.res = some r) (hc : classify cfg (attemptOf (stateAt cfg its n)) r = .retry (some d)) :
+    b.res.isSome = true ∧ attemptOf (stateAt cfg its (n + 1)) = attemptOf (stateAt cfg its n) + 1 ∧
+    Gate cfg view (max a.patched (a.ended + d)) b.start ∧ a.ended + d ≤ b.start ∧ a.patched ≤ b.start ∧
+    (cfg.idle = none → b.start = max a.patched (a.ended + d)) := by
+  have hst : stateAt cfg its (n + 1) =
+      { retries := (stateAt cfg its n).atTop.retries + 1, success := false, failure := false, delayed := some (a.ended + d) } := by
+    rw [stateAt_succ ha]; unfold attemptOf at hc; simp [step, hr, hc, HState.withOutcome]
+  have hnext := (Sched.step_at h ha hb).1
+  rw [hst] at hnext
+  refine ⟨invoked_unless_failed cfg view spawn its h (n + 1) b hb (by rw [hst]), ?_, ?_⟩
+  · rw [hst]; simp [attemptOf, HState.atTop, HState.finished]
+  · exact error_delay_step cfg view _ a b.start (a.ended + d) (by simp [HState.finished]) rfl hnext
 
 /-! ### the first run: the initial delay -/
 
-/-- The first run of a (re)spawned timer task is not earlier than the spawn plus the initial delay;
-    without `idle` it is exactly then. -/
+/-- The first iteration of a (re)spawned timer task — a run, the state being fresh — is not earlier
+    than the spawn plus the initial delay; without `idle` it is exactly then. -/
 theorem initial_delay_law (cfg : Cfg) (view : View) (spawn t' d : Int)
     (hd : cfg.initialDelay = some d) (h : First cfg view spawn t') :
     spawn + d ≤ t' ∧ spawn ≤ t' ∧ (cfg.idle = none → t' = max spawn (spawn + d)) := by
@@ -147,100 +262,79 @@ theorem initial_delay_law (cfg : Cfg) (view : View) (spawn t' d : Int)
 
 /-! ### idling -/
 
-/-- FULL CLAUSE (false of the code, see `idle_reset_flip_back_witness`): "no run starts within the idle
-    time after the last essential change of the object".
-    PROVED PART: no run starts within the idle time after the last change the operator REGISTERED as
-    one — for every run of every run sequence, `start - idle_reset_time(as read at start) ≥ idle`
-    (induction over the sequence). The gap is not in the timer loop but in what counts as a change:
-    `idle_reset_time` is written when the essence differs from the LAST-HANDLED essence (`resetsIdle`),
-    so a change that restores the last-handled essence (A → B → A with B never handled) is not registered. -/
-theorem idle_law_partial (cfg : Cfg) (view : View) (spawn idle : Int) (rs : List Run)
-    (hi : cfg.idle = some idle) (h : Sched cfg view spawn rs) :
-    ∀ r ∈ rs, idle ≤ r.start - view r.start := by
-  cases rs with
-  | nil => intro r hr; cases hr
-  | cons r0 rs =>
-    obtain ⟨hf, _, _, hc⟩ := h
-    intro r hr
-    cases hr with
-    | head => exact Gate.idle_ok hi hf
-    | tail _ hr' =>
-      exact Chain.forall_tail (cfg := cfg) (view := view) (Q := fun r => idle ≤ r.start - view r.start)
-        (fun _ _ hn => Next.idle_ok hi hn) rs r0 hc r hr'
+/-- No iteration starts within the idle time after the value of `idle_reset_time` it reads: for every
+    iteration of every sequence, `start - view start ≥ idle` — `view` arbitrary. -/
+theorem idle_law (cfg : Cfg) (view : View) (spawn idle : Int) (its : List Iter)
+    (hi : cfg.idle = some idle) (h : Sched cfg view spawn its) :
+    ∀ it ∈ its, idle ≤ it.start - view it.start := by
+  intro it hit
+  obtain ⟨n, hn, hget⟩ := List.getElem_of_mem hit
+  have hb : its[n]? = some it := by rw [List.getElem?_eq_getElem hn, hget]
+  rcases Sched.start_cases h n it hb with ⟨_, hf⟩ | ⟨m, a, _, _, hnext⟩
+  · exact Gate.idle_ok hi hf
+  · exact Next.idle_ok hi hnext
 
-/-- every change away from what is recorded as last handled (and every event when nothing is recorded) resets idling -/
-theorem reset_on_unhandled_change (lastHandled : Option Nat) (new : Nat) (h : lastHandled ≠ some new) :
-    resetsIdle lastHandled new = true := by
-  simp [resetsIdle, h]
+/-- With `idle_reset_time` derived from the history of processed events: no iteration starts within the
+    idle time after any change the operator REGISTERED (an event whose essence differs from the
+    last-handled essence it carries) and processed by then — for every event history. -/
+theorem idle_law_registered (cfg : Cfg) (created spawn idle : Int) (evs : List Ev) (its : List Iter)
+    (hi : cfg.idle = some idle) (h : Sched cfg (viewOf created evs) spawn its) :
+    ∀ it ∈ its, ∀ e ∈ evs, e.registered = true → e.t ≤ it.start → idle ≤ it.start - e.t := by
+  intro it hit e he hr ht
+  have := idle_law cfg (viewOf created evs) spawn idle its hi h it hit
+  have := viewOf_ge_registered created evs it.start e he hr ht
+  omega
 
-/-- … but not every essential change does: the object goes from essence 1 (seen, never handled) back
-    to essence 0 (the last handled one) — its content changed (`prev ≠ new`), idling is not reset.
-    Replayed on the real operator in every run (corpus/C10/F1.json, known finding C10-F1). -/
-theorem idle_reset_flip_back_witness :
-    ∃ lastHandled prev new : Nat, prev ≠ new ∧ resetsIdle (some lastHandled) new = false :=
-  ⟨0, 1, 0, by decide, by decide⟩
+/-- FULL CLAUSE (`FullIdle`): no run starts within the idle time after the last ESSENTIAL change of the
+    object (its essence differs from the previously processed version). It is false of the code in
+    general (`idle_full_clause_false_witness`). PROVED under the exact guard `AllEssentialRegistered`:
+    every essential change is also a change against the last-handled essence — e.g. no change handlers
+    at all (nothing is ever stored as handled), or every change is handled before the next one arrives. -/
+theorem idle_law_partial (cfg : Cfg) (created spawn idle : Int) (evs : List Ev) (its : List Iter)
+    (hi : cfg.idle = some idle) (hg : AllEssentialRegistered evs) (h : Sched cfg (viewOf created evs) spawn its) :
+    FullIdle idle evs its := by
+  intro it hit _ c hc hle
+  obtain ⟨e, he, het, hr⟩ := hg c hc
+  have := idle_law_registered cfg created spawn idle evs its hi h it hit e he hr (by omega)
+  omega
 
-/-- Idle-only timers (no interval): after a final run the next one needs a change newer than the
-    run's start (read at one of the poll instants `patched, patched + idle, …`), and then the idle gate. -/
-theorem idle_only_law (cfg : Cfg) (view : View) (r : Run) (t' idle : Int)
-    (hn : cfg.interval = none) (hi : cfg.idle = some idle) (hd : r.out cfg = .done)
-    (h : Next cfg view r t') :
-    ∃ p, r.patched ≤ p ∧ p ≤ t' ∧ r.start < view p ∧ idle ≤ t' - view t' := by
-  have hw : wake cfg r = .poll idle := by unfold wake; rw [hd]; simp only [hn, hi]
-  unfold Next at h; replace h := h.2; rw [hw] at h; simp only at h
+/-- The negation of the full clause, as a concrete behaviour of the model (replayed on the real operator
+    in every run: corpus/C10/F1.json, open finding C10-F1). Timer: interval 1 s, idle 4 s. The object is
+    created at t=64 (essence 0), recorded as handled (t=66), edited to essence 1 at t=512 — registered,
+    but never recorded as handled (the update handler keeps failing) — and edited BACK to essence 0 at
+    t=864: the essence changed (1 → 0), yet it equals the last-handled essence, so `idle_reset_time`
+    stays 512. The runs at 768, 832 are legitimate; the run at 896 starts 32 ticks (0.5 s) after the
+    essential change at 864, although idle = 256 ticks. -/
+theorem idle_full_clause_false_witness :
+    ∃ (cfg : Cfg) (idle created spawn : Int) (evs : List Ev) (its : List Iter),
+      cfg.idle = some idle ∧ Sched cfg (viewOf created evs) spawn its ∧ ¬ FullIdle idle evs its := by
+  let cfg : Cfg := { interval := some 64, sharp := false, idle := some 256, initialDelay := none, backoff := 64 }
+  let evs : List Ev := [⟨64, 0, none⟩, ⟨66, 0, some 0⟩, ⟨512, 1, some 0⟩, ⟨864, 0, some 0⟩]
+  let mk : Int → Iter := fun t => { start := t, ended := t, patched := t, res := some .ok }
+  let its : List Iter := [mk 320, mk 384, mk 448, mk 768, mk 832, mk 896]
+  refine ⟨cfg, 256, 64, 64, evs, its, rfl, schedCheck_sound (extends_total _) (n := 8) (by decide), ?_⟩
+  intro hfull
+  have := hfull (mk 896) (by simp [its]) rfl 864 (by decide) (by decide)
+  simp [mk] at this
+
+/-- Idle-only timers (no interval): after an iteration that left the state finished, the next one needs
+    a change newer than the iteration's start (read at one of the poll instants `patched, patched + idle, …`),
+    and then the idle gate. -/
+theorem idle_only_law (cfg : Cfg) (view : View) (h' : HState) (it : Iter) (t' idle : Int)
+    (hn : cfg.interval = none) (hi : cfg.idle = some idle) (hd : h'.finished = true)
+    (h : Next cfg view h' it t') :
+    ∃ p, it.patched ≤ p ∧ p ≤ t' ∧ it.start < view p ∧ idle ≤ t' - view t' := by
+  have hw : wake cfg h' it = .poll idle := by unfold wake; simp [hd, hn, hi]
+  unfold Next at h; rw [hw] at h; simp only at h
   obtain ⟨p, hp, hg⟩ := h
   exact ⟨p, hp.ge, hg.ge, hp.seen, Gate.idle_ok hi hg⟩
 
-/-- Neither interval nor idle: after a final run the loop breaks (one-shot). -/
-theorem one_shot (cfg : Cfg) (view : View) (r : Run) (t' : Int)
-    (hn : cfg.interval = none) (hi : cfg.idle = none) (hd : r.out cfg = .done) :
-    ¬ Next cfg view r t' := by
-  have hw : wake cfg r = .stop := by unfold wake; rw [hd]; simp only [hn, hi]
-  unfold Next; rw [hw]; exact fun h => h.2
-
-/-! ### the retry counter along a sequence -/
-
-/-- the `retry` kwarg restarts from 0 after every final run and counts up through a retry series -/
-theorem attempt_law (cfg : Cfg) (view : View) (spawn : Int) (rs : List Run) (h : Sched cfg view spawn rs)
-    (n : Nat) (a b : Run) (ha : rs[n]? = some a) (hb : rs[n + 1]? = some b) :
-    b.attempt = (match a.out cfg with | .retry _ => a.attempt + 1 | _ => 0) := by
-  cases rs with
-  | nil => simp at ha
-  | cons r rs =>
-    obtain ⟨_, hwf, _, hc⟩ := h
-    exact Chain.consecutive (cfg := cfg) (view := view)
-      (P := fun a b => b.attempt = (match a.out cfg with | .retry _ => a.attempt + 1 | _ => 0))
-      (fun r r' _ _ _ hat => by rw [hat]; rfl) rs r hwf hc n a b ha hb
-
-/-! ### after a run that failed for good: the timer is over -/
-
-/-- docs/timers.rst: "For PermanentError, the timer stops forever and is not retried." One step: a run
-    that failed for good (PermanentError, an arbitrary error under errors=PERMANENT, retries exhausted —
-    `classify_permanent`) has no successor run, whatever the configuration and the object's changes. -/
-theorem permanent_is_last (cfg : Cfg) (view : View) (r : Run) (t' : Int) (hf : r.out cfg = .failed) :
-    ¬ Next cfg view r t' := fun h => h.1 hf
-
-/-- … hence in every run sequence a run that failed for good is the last one. -/
-theorem failed_is_last (cfg : Cfg) (view : View) (spawn : Int) (rs : List Run) (h : Sched cfg view spawn rs)
-    (n : Nat) (a : Run) (ha : rs[n]? = some a) (hf : a.out cfg = .failed) : rs[n + 1]? = none := by
-  cases hb : rs[n + 1]? with
-  | none => rfl
-  | some b =>
-    exfalso
-    cases rs with
-    | nil => simp at ha
-    | cons r rs =>
-      obtain ⟨_, hwf, _, hc⟩ := h
-      exact Chain.consecutive (cfg := cfg) (view := view) (P := fun a _ => a.out cfg ≠ .failed)
-        (fun _ _ _ _ hn _ => hn.1) rs r hwf hc n a b ha hb hf
-
-/-- which results fail for good -/
-theorem classify_permanent (cfg : Cfg) (attempt : Nat) :
-    classify cfg attempt .permanent = .failed ∧
-    (cfg.errors = .permanent → classify cfg attempt .arbitrary = .failed) ∧
-    (lookaheadRetries cfg attempt = true → ∀ d, classify cfg attempt (.temporary d) = .failed) ∧
-    (lookaheadRetries cfg attempt = true → cfg.errors = .temporary → classify cfg attempt .arbitrary = .failed) := by
-  refine ⟨rfl, fun he => by simp [classify, he], fun hl d => by simp [classify, hl], fun hl he => by simp [classify, he, hl]⟩
+/-- Neither interval nor idle: after an iteration that left the state finished the loop breaks (one-shot). -/
+theorem one_shot (cfg : Cfg) (view : View) (h' : HState) (it : Iter) (t' : Int)
+    (hn : cfg.interval = none) (hi : cfg.idle = none) (hd : h'.finished = true) :
+    ¬ Next cfg view h' it t' := by
+  have hw : wake cfg h' it = .stop := by unfold wake; simp [hd, hn, hi]
+  unfold Next; rw [hw]; exact fun h => h
 
 /-! ### non-vacuity: concrete instances meeting the hypotheses -/
 
@@ -251,46 +345,62 @@ private def view0 : View := fun t => if t < 500 then 64 else 500   -- created at
 private def cfgA : Cfg := { interval := some 128, sharp := false, idle := some 96, initialDelay := some 32, backoff := 64 }
 private def cfgS : Cfg := { interval := some 128, sharp := true, idle := none, initialDelay := none, backoff := 64 }
 private def cfgI : Cfg := { interval := none, sharp := false, idle := some 96, initialDelay := none, backoff := 64 }
+private def pv0 : PView := fun t => some (view0 t)
 
 -- first run: spawn 64, initial delay 32 → 96, but idle 96 after the reset at 64 → 160
 example : First cfgA view0 64 160 := firstStartN_sound (extends_total _) (n := 8) (by decide)
 
--- interval law, with a patch round trip of 1 tick and a slow run (3 s > interval 2 s)
-private def rA : Run := { start := 160, ended := 352, patched := 353, attempt := 0, res := .ok }
-example : rA.WF ∧ rA.out cfgA = .done := by decide
-example : Next cfgA view0 rA 481 := nextStartN_sound (extends_total _) (n := 8) (by decide)
--- … and postponed by the edit at 500 (wake 545 < 500 + 96 = 596)
-private def rA' : Run := { start := 416, ended := 416, patched := 417, attempt := 0, res := .ok }
-example : Next cfgA view0 rA' 596 := nextStartN_sound (extends_total _) (n := 8) (by decide)
+-- a full sequence of four iterations: slow ok with a patch (3 s > interval 2 s), temporary(delay 40)
+-- with a patch, ok (retry=1; 521 is within idle 96 of the edit at 500 → 596), ok — `interval_law` (n=0: 353 + 128 = 481),
+-- `error_delay_law` (n=1), `no_overlap`
+private def i1 : Iter := { start := 160, ended := 352, patched := 353, res := some .ok }
+private def i2 : Iter := { start := 481, ended := 481, patched := 482, res := some (.temporary (some 40)) }
+private def i3 : Iter := { start := 596, ended := 596, patched := 596, res := some .ok }
+private def i4 : Iter := { start := 724, ended := 724, patched := 724, res := some .ok }
+example : Sched cfgA view0 64 [i1, i2, i3, i4] := schedCheck_sound (extends_total _) (n := 8) (by decide)
+example : classify cfgA (attemptOf (stateAt cfgA [i1, i2, i3, i4] 0)) .ok = .done := by decide
+example : classify cfgA (attemptOf (stateAt cfgA [i1, i2, i3, i4] 1)) (.temporary (some 40)) = .retry (some 40) := by decide
+example : attemptOf (stateAt cfgA [i1, i2, i3, i4] 2) = 1 ∧ attemptOf (stateAt cfgA [i1, i2, i3, i4] 3) = 0 := by decide
 
--- a full sequence (Sched) of three runs: ok, temporary(delay 40) with a patch, ok
-private def r1 : Run := { start := 160, ended := 170, patched := 171, attempt := 0, res := .ok }
-private def r2 : Run := { start := 299, ended := 299, patched := 300, attempt := 0, res := .temporary (some 40) }
-private def r3 : Run := { start := 339, ended := 339, patched := 339, attempt := 1, res := .ok }
-example : Sched cfgA view0 64 [r1, r2, r3] :=
-  ⟨firstStartN_sound (extends_total _) (n := 8) (by decide), by decide, rfl,
-   .cons (nextStartN_sound (extends_total _) (n := 8) (by decide)) (by decide) (by decide)
-    (.cons (nextStartN_sound (extends_total _) (n := 8) (by decide)) (by decide) (by decide) (.nil _))⟩
-example : r2.out cfgA = .retry (some 40) := by decide
+-- postponed by the edit at 500 (wake 417 + 128 = 545 < 500 + 96 = 596)
+private def iP : Iter := { start := 416, ended := 416, patched := 417, res := some .ok }
+example : Next cfgA view0 (step cfgA .fresh iP) iP 596 := nextStartN_sound (extends_total _) (n := 8) (by decide)
 
 -- sharp grid: run of 3 s on a 2 s grid from 0 → next at 256 (k = 2); exactly one interval long → k = 2 too
-private def rS : Run := { start := 0, ended := 192, patched := 193, attempt := 0, res := .ok }
-example : Next cfgS view0 rS 256 := nextStartN_sound (extends_total _) (n := 8) (by decide)
-private def rS' : Run := { start := 0, ended := 128, patched := 128, attempt := 0, res := .ok }
-example : Next cfgS view0 rS' 256 := nextStartN_sound (extends_total _) (n := 8) (by decide)
+private def s1 : Iter := { start := 0, ended := 192, patched := 193, res := some .ok }
+private def s2 : Iter := { start := 256, ended := 384, patched := 384, res := some .ok }
+private def s3 : Iter := { start := 512, ended := 512, patched := 512, res := some .ok }
+example : Sched cfgS view0 0 [s1, s2, s3] := schedCheck_sound (extends_total _) (n := 8) (by decide)
+
+-- a timer that fails for good (retries = 2: the second temporary error is final): the loop goes on
+-- sleeping the interval, the function is never invoked again (`failed_is_last` with n = 2)
+private def cfgR : Cfg := { cfgS with retries := some 2 }
+private def f1 : Iter := { start := 0, ended := 0, patched := 0, res := some (.temporary (some 40)) }
+private def f2 : Iter := { start := 40, ended := 40, patched := 41, res := some (.temporary (some 40)) }
+private def f3 : Iter := { start := 168, ended := 168, patched := 168, res := none }
+private def f4 : Iter := { start := 296, ended := 296, patched := 296, res := none }
+example : Sched cfgR view0 0 [f1, f2, f3, f4] := schedCheck_sound (extends_total _) (n := 8) (by decide)
+example : (stateAt cfgR [f1, f2, f3, f4] 2).failure = true := by decide
+-- … and an iteration that claims to invoke the function after the failure is not a behaviour of the model
+example : schedCheck cfgR pv0 8 0 [f1, f2, { f3 with res := some .ok }] = false := by decide
+-- a one-shot timer that failed for good: the loop breaks
+example : nextStartN { cfgI with idle := none } pv0 8 (step cfgI .fresh { f1 with res := some .permanent }) f1 = .ended := by decide
 
 -- idle-only: ran at 200; polls at 200, 296, 392, 488, 584 (sees the edit of 500) → gate → 596
-private def rI : Run := { start := 200, ended := 200, patched := 200, attempt := 0, res := .ok }
-example : Next cfgI view0 rI 596 := nextStartN_sound (extends_total _) (n := 8) (by decide)
+private def iI : Iter := { start := 200, ended := 200, patched := 200, res := some .ok }
+example : Next cfgI view0 (step cfgI .fresh iI) iI 596 := nextStartN_sound (extends_total _) (n := 8) (by decide)
 
--- arbitrary error → backoff
-example : classify cfgA 0 .arbitrary = .retry (some 64) := by decide
--- retries = 2: the second failure is final, and nothing follows it although the loop goes on sleeping
-example : classify { cfgA with retries := some 2 } 1 (.temporary (some 40)) = .failed := by decide
-private def rP : Run := { start := 100, ended := 100, patched := 100, attempt := 0, res := .permanent }
-example : rP.out cfgA = .failed ∧ wake cfgA rP = .at 228 ∧ nextStartN cfgA (fun t => some (view0 t)) 8 rP = .never := by decide
--- a one-shot timer that failed for good: the loop breaks
-example : nextStartN { cfgI with idle := none } (fun t => some (view0 t)) 8 rP = .ended := by decide
+-- the guard of `idle_law_partial` is met by histories in which every change is handled before the next
+example : AllEssentialRegistered [⟨64, 0, none⟩, ⟨66, 0, some 0⟩, ⟨512, 1, some 0⟩, ⟨514, 1, some 1⟩, ⟨864, 0, some 1⟩] := by
+  intro c hc
+  simp [essentialTimes] at hc
+  rcases hc with rfl | rfl | rfl
+  · exact ⟨⟨64, 0, none⟩, by simp, rfl, by decide⟩
+  · exact ⟨⟨512, 1, some 0⟩, by simp, rfl, by decide⟩
+  · exact ⟨⟨864, 0, some 1⟩, by simp, rfl, by decide⟩
+-- … and the derived view of the witness history: 64 until the edit of 512 is processed, 512 ever after
+example : viewOf 64 [⟨64, 0, none⟩, ⟨66, 0, some 0⟩, ⟨512, 1, some 0⟩, ⟨864, 0, some 0⟩] 511 = 64 ∧
+          viewOf 64 [⟨64, 0, none⟩, ⟨66, 0, some 0⟩, ⟨512, 1, some 0⟩, ⟨864, 0, some 0⟩] 896 = 512 := by decide
 
 end Examples
 
